@@ -55,6 +55,30 @@ def harvest(dprog):
                         a["line"] = c.line
                         atom = a
             atom["entry"] = entry
+            if len(b.preds) > 1 and atom["kind"] == "other":
+                # `CBOR_ASSERT(a && b)`: the failure block is reached from the test of each conjunct; every conjunct is an atom
+                tests = [p for p in b.preds if p.term.op == "br" and len(p.succs) == 2]
+                first = next((p for p in tests if all(f.dominates_block(p, q) for q in tests)), None)
+                conj = []
+                for p in tests:
+                    a = _atom_of_cond(f, p.term.operands[0], want=not (p.succs[0] is b))
+                    if a:
+                        conj.append(a)
+                if first is not None and conj and len(conj) == len(tests):
+                    start = first
+                    if len(first.preds) == 1:
+                        p0 = first.preds[0]
+                        c0 = p0.term.operands[0] if p0.term.op == "br" and len(p0.succs) == 2 else None
+                        c0 = strip_casts(c0, ("trunc", "zext")) if c0 is not None else None
+                        if isinstance(c0, Inst) and c0.op == "load" and isinstance(strip_casts(c0.operands[0]), GlobalRef):
+                            start = p0
+                    entry = all(f.dominates_block(start, r.block) for r in f.returns())
+                    for a in conj:
+                        a["text"] = text
+                        a["line"] = c.line
+                        a["entry"] = entry
+                        atoms.append(a)
+                    continue
             atoms.append(atom)
         if atoms:
             out[f.name] = atoms
